@@ -438,9 +438,13 @@ func (e *seqEnv) block(t *rapid.T, by *sim.Replica, empty bool) {
 	if s.State.Epoch() != preEpoch {
 		e.epochs++
 	}
-	e.counts["block."+map[bool]string{true: "own", false: "other"}[by == e.r && who != "empty"]]++
-	if who == "empty" {
+	switch {
+	case who == "empty":
 		e.counts["block.empty"]++
+	case by == e.r:
+		e.counts["block.own"]++
+	default:
+		e.counts["block.other_node"]++
 	}
 	// clause: none of the block's transactions remain (the pool is told about the block unless the node syncs)
 	for _, tx := range blk.Body.Transactions {
